@@ -29,9 +29,14 @@ Inductive qcase :=
        angle/theta as exact rationals *)
 | CMono (aux : bool) (n : nat) (md : Z) (u : F.FI) (cols : list (nat * F.FI))
     (* the matrix of that circuit, column by column: (row of the non-zero entry, entry) *)
-| CEvtCirc (len : Z) (isR : bool) (gs : list letter).
+| CEvtCirc (len : Z) (isR : bool) (gs : list letter)
     (* the gate list of EigenvalueTransformation.as_circuit(), one letter per phase-shift
        group / block-encoding gate, first applied first *)
+| CGateMx (wires : nat) (md : Z) (u : F.FI) (g : pgate) (cols : list (nat * F.FI)).
+    (* ONE gate of a phase-shift circuit (as the implementation built it, in the terms of CGates)
+       and the matrix the implementation gives a circuit consisting of that gate alone, column
+       by column: ties the gate semantics of the model (Rz half angles, control states, X flip,
+       global phase, wire embedding) gate by gate, not only through whole-circuit products *)
 
 Module QT.
   Import PrimFloat.
@@ -52,6 +57,10 @@ Definition check (sc : cphase_src) (sa : aux_src) (se : evt_src) (c : qcase) : b
                (map (fun c => (b2n (run_bits gs c), run_phK (K:=F.FI) (upow_q md u) gs c)) (all_bits wires))
                cols
   | CEvtCirc len isR gs => list_eqb (letter_eqb isR) (evt_circ_gates se len) gs
+  | CGateMx wires md u g cols =>
+      list_eqb (fun m o => Nat.eqb (fst m) (fst o) && F.fi_close tol (snd m) (snd o))
+               (map (fun c => (b2n (gate_perm g c), upow_q (K:=F.FI) md u (gate_phq g c))) (all_bits wires))
+               cols
   end.
 
 Definition bad_cases (sc : cphase_src) (sa : aux_src) (se : evt_src) (cs : list (nat * qcase)) : list nat :=
